@@ -82,7 +82,7 @@ func c05Gen(rng *rand.Rand, m *model.Model, keys []string) []string {
 	case 15, 16:
 		a := []string{"SRANDMEMBER", k}
 		if rng.Intn(4) > 0 {
-			a = append(a, pick(rng, []string{"0", "1", strconv.Itoa(n - 1), strconv.Itoa(n), strconv.Itoa(n + 5), "-1", strconv.Itoa(-n - 5), "x", "-3", "-9223372036854775808"}))
+			a = append(a, pick(rng, []string{"0", "1", strconv.Itoa(n - 1), strconv.Itoa(n), strconv.Itoa(n + 5), "-1", strconv.Itoa(-n - 5), "x", "-3", "-9223372036854775808", "9223372036854775807", "4611686018427387904", "2147483648"}))
 		}
 		return a
 	case 17, 18, 19, 20, 21:
